@@ -223,6 +223,41 @@ def data_session(col, binpath, vmon, rng, tag, scratch):
         sess.close()
 
 
+def long_count_session(col, binpath, vmon, rng, tag, scratch, n_msgs):
+    """One aircraft heard n_msgs times (radar handles ~100 lines/s): the Msgs column shows the exact
+    count however many digits it needs; a second, quiet aircraft keeps its own count."""
+    lat, lon = 52.0, 4.0
+    a, b = 0x3D1000 + rng.randrange(4096), 0x3D3000 + rng.randrange(4096)
+    la, lo = enc.destination(lat, lon, 70.0, 40.0)
+    recs = [enc.long_frame(17, 5, a, enc.me_ident(4, 0, "BUSYBEE")), enc.long_frame(17, 5, a, enc.me_airpos(11, 30000, la, lo, False)), enc.long_frame(17, 5, a, enc.me_airpos(11, 30000, la, lo, True)),
+            enc.long_frame(17, 5, b, enc.me_ident(4, 0, "QUIET1"))]
+    base = rng.randrange(1 << 30)
+    for k in range(n_msgs - 3):
+        recs.append(enc.long_frame(17, 5, a, enc.me_unique(rng.choice([0, 23, 25, 27]), base + k)))
+    lines = [enc.line(r) for r in recs] + [sentinel_line(0)]
+    sim = feedsim(vmon, lines, lat, lon, scratch, False)
+    plan = [("send", b"".join(lines)), ("mark", "feed_done"), ("sleep", 120 + n_msgs / 50)]
+    opts = ["--filter-time", "100000"]
+    sess = session.RadarSession(binpath, plan, lat=lat, lon=lon, opts=opts, rows=60, cols=200, scratch=scratch)
+    inp = {"receiver": [lat, lon], "options": opts, "what": f"{n_msgs} frames from {a:06x}, 1 from {b:06x}, then the sentinel", "first_lines": [l.decode() for l in lines[:6]], "tag": tag}
+    try:
+        sess.wait_connected()
+        rows = wait_rows(sess, sim["len"], cap=60.0 + n_msgs / 40, sentinel=SENTINELS[0])
+        col.count("long_count_sessions")
+        col.count("rows_compared", len(sim["rows"]))
+        col.cls(f"long_count|digits={len(str(n_msgs))}")
+        if rows is None:
+            if not sess.p.alive():
+                col.add("C17", f"C17|terminated_before_quit|{sess.panic_location()}", "radar died during a C18 session", inp)
+                return
+            raise Inconclusive("Airplanes table not on screen")
+        if not any(r["icao"] == "%06x" % SENTINELS[0] for r in rows):
+            raise Inconclusive(f"the sentinel behind {n_msgs} lines did not show up in time")
+        rows_equal(col, rows, sim, "", inp, "long_session")
+    finally:
+        sess.close()
+
+
 def stats_expiry_session(col, binpath, rng, tag, scratch):
     """Aircraft expire and come back: Total counts every (re-)add, Most the largest simultaneous count.
     Event driven (title counts), so a slow machine only makes it slower."""
@@ -392,12 +427,15 @@ def main(a, lcol, col, run_all, scratch, START):
         jobs.append((f"map#{i}", lambda rng, i=i: map_session(lcol, a.bin, rng, f"map#{i}", scratch)))
     for i in range(ne):
         jobs.append((f"expiry#{i}", lambda rng, i=i: stats_expiry_session(lcol, a.bin, rng, f"expiry#{i}", scratch)))
+    # long sessions first (they take the longest): 4-digit counts in the quick tier, 5-digit in thorough
+    for i, n_msgs in enumerate([1003 + 7 * (a.seed % 50), 10_007 + 11 * (a.seed % 50)] if thorough else [1003 + 7 * (a.seed % 50)]):
+        jobs.insert(0, (f"long#{i}", lambda rng, i=i, n_msgs=n_msgs: long_count_session(lcol, a.bin, a.vmon, rng, f"long#{i}", scratch, n_msgs)))
     run_all(jobs)
     ev = col.counters.get("rows_compared", 0) + col.counters.get("stats_compared", 0) + col.counters.get("view_control_sequences", 0) + col.counters.get("map_sessions", 0) * 8 + col.counters.get("expiry_sessions", 0)
-    distinct = col.counters.get("data_sessions", 0) + col.counters.get("map_sessions", 0) + col.counters.get("expiry_sessions", 0)
+    distinct = col.counters.get("data_sessions", 0) + col.counters.get("long_count_sessions", 0) + col.counters.get("map_sessions", 0) + col.counters.get("expiry_sessions", 0)
     col.sample({"data_session": "20 aircraft in four quadrants with identification/velocity/position (some one parity only); all 10 columns of every Airplanes row == library run on the same lines; tab title; Stats totals; 1-40 view-control events then rows unchanged"})
     col.sample({"map_session": "8 aircraft due N/E/S/W at d and 2d km; blue braille cells relative to the axis crossing: direction, 2:1 proportion, E/W and N/S symmetry, receiver at the canvas centre, zoom-out + reset restores the cells"})
     return vlib.finish(col, "C18", a.tier, a.seed, "exploration",
-        "radar on a 200x60 pseudo-terminal fed by a scripted server: (a) data sessions: the reconstructed Airplanes table (address, callsign, lat, lon, heading, altitude, rate, speed, distance, message count; blanks without a position) == rows computed by the repository's library on the same recorded lines (vmon feedsim), tab title count, Stats 'Total'/'Most'; then 1-40 zoom/pan/reset/drag/scroll events and the table again; (b) expiry sessions (--filter-time 2): aircraft expire and return, Total = number of (re-)adds, Most = largest simultaneous count; (c) map sessions: aircraft due N/E/S/W at d and 2d: direction, proportion, symmetry, centre, reset; distinct_nontrivial = sessions (each a distinct seeded feed)",
+        "radar on a 200x60 pseudo-terminal fed by a scripted server: (a) data sessions: the reconstructed Airplanes table (address, callsign, lat, lon, heading, altitude, rate, speed, distance, message count; blanks without a position) == rows computed by the repository's library on the same recorded lines (vmon feedsim), tab title count, Stats 'Total'/'Most'; then 1-40 zoom/pan/reset/drag/scroll events and the table again; (b) expiry sessions (--filter-time 2): aircraft expire and return, Total = number of (re-)adds, Most = largest simultaneous count; (c) long sessions: one aircraft heard 1003+ (quick) / 10007+ (thorough) times, Msgs column exact; (d) map sessions: aircraft due N/E/S/W at d and 2d: direction, proportion, symmetry, centre, reset; distinct_nontrivial = sessions (each a distinct seeded feed)",
         ["screen reconstruction by a minimal VT model; aircraft dots are the blue (38;5;4) braille cells with --disable-heading", "one-cell tolerance for direction/symmetry, two cells for the 2:1 proportion"],
         a.verif, START, ev, distinct, min_evaluations=20)
